@@ -241,23 +241,37 @@ def eof_roundtrip_body(direction, mode, crc, large, segctrl, we, ws, src, seq, d
         ensures("rt-repack", g.pack() == raw)
 
 
-@obligation(["C06", "C09", "C11"], "EofPdu/pack-roundtrip[no-crc]", verifies=EOF_FUNCS)
-def eof_roundtrip_nocrc(direction: EnumOf(Direction), mode: EnumOf(TransmissionMode), large: EnumOf(LargeFileFlag),
-                        segctrl: EnumOf(SegmentationControl), we: W, ws: W, src: Int, seq: Int, dst: Int,
-                        cc: EnumOf(ConditionCode), checksum: BytesLen(4, 4), size: Int, wf: WF, fid: Int, suffix: Bytes):
-    eof_roundtrip_body(direction, mode, CrcFlag.NO_CRC, large, segctrl, we, ws, src, seq, dst, cc, checksum, size, wf, fid, suffix)
+@obligation(["C06", "C09", "C11"], "EofPdu/pack-roundtrip[no-crc,normal]", verifies=EOF_FUNCS)
+def eof_roundtrip_00(direction: EnumOf(Direction), mode: EnumOf(TransmissionMode), segctrl: EnumOf(SegmentationControl), we: W, ws: W,
+                     src: Int, seq: Int, dst: Int, cc: EnumOf(ConditionCode), checksum: BytesLen(4, 4), size: Int, wf: WF, fid: Int,
+                     suffix: Bytes):
+    eof_roundtrip_body(direction, mode, CrcFlag.NO_CRC, LargeFileFlag.NORMAL, segctrl, we, ws, src, seq, dst, cc, checksum, size, wf, fid, suffix)
 
 
-@obligation(["C06", "C04", "C09", "C11"], "EofPdu/pack-roundtrip[crc]", verifies=EOF_FUNCS)
-def eof_roundtrip_crc(direction: EnumOf(Direction), mode: EnumOf(TransmissionMode), large: EnumOf(LargeFileFlag),
-                      segctrl: EnumOf(SegmentationControl), we: W, ws: W, src: Int, seq: Int, dst: Int,
-                      cc: EnumOf(ConditionCode), checksum: BytesLen(4, 4), size: Int, wf: WF, fid: Int, suffix: Bytes):
-    eof_roundtrip_body(direction, mode, CrcFlag.WITH_CRC, large, segctrl, we, ws, src, seq, dst, cc, checksum, size, wf, fid, suffix)
+@obligation(["C06", "C09", "C11"], "EofPdu/pack-roundtrip[no-crc,large]", verifies=EOF_FUNCS)
+def eof_roundtrip_01(direction: EnumOf(Direction), mode: EnumOf(TransmissionMode), segctrl: EnumOf(SegmentationControl), we: W, ws: W,
+                     src: Int, seq: Int, dst: Int, cc: EnumOf(ConditionCode), checksum: BytesLen(4, 4), size: Int, wf: WF, fid: Int,
+                     suffix: Bytes):
+    eof_roundtrip_body(direction, mode, CrcFlag.NO_CRC, LargeFileFlag.LARGE, segctrl, we, ws, src, seq, dst, cc, checksum, size, wf, fid, suffix)
+
+
+@obligation(["C06", "C04", "C09", "C11"], "EofPdu/pack-roundtrip[crc,normal]", verifies=EOF_FUNCS)
+def eof_roundtrip_10(direction: EnumOf(Direction), mode: EnumOf(TransmissionMode), segctrl: EnumOf(SegmentationControl), we: W, ws: W,
+                     src: Int, seq: Int, dst: Int, cc: EnumOf(ConditionCode), checksum: BytesLen(4, 4), size: Int, wf: WF, fid: Int,
+                     suffix: Bytes):
+    eof_roundtrip_body(direction, mode, CrcFlag.WITH_CRC, LargeFileFlag.NORMAL, segctrl, we, ws, src, seq, dst, cc, checksum, size, wf, fid, suffix)
+
+
+@obligation(["C06", "C04", "C09", "C11"], "EofPdu/pack-roundtrip[crc,large]", verifies=EOF_FUNCS)
+def eof_roundtrip_11(direction: EnumOf(Direction), mode: EnumOf(TransmissionMode), segctrl: EnumOf(SegmentationControl), we: W, ws: W,
+                     src: Int, seq: Int, dst: Int, cc: EnumOf(ConditionCode), checksum: BytesLen(4, 4), size: Int, wf: WF, fid: Int,
+                     suffix: Bytes):
+    eof_roundtrip_body(direction, mode, CrcFlag.WITH_CRC, LargeFileFlag.LARGE, segctrl, we, ws, src, seq, dst, cc, checksum, size, wf, fid, suffix)
 
 
 @obligation(["C06"], "EofPdu/refusals", verifies=[P + "eof:EofPdu.__init__", P + "eof:EofPdu.pack"])
 def eof_refusals(crc: EnumOf(CrcFlag), large: EnumOf(LargeFileFlag), we: W, ws: W, cc: EnumOf(ConditionCode), checksum: Bytes, size: Int,
-                 wf: WF, fid: Int):
+                 wf: Choice(0, 4), fid: Int):
     """a file size that does not fit the selected FSS width makes pack fail (never a truncated field); the checksum has 4 octets"""
     requires(cc != ConditionCode.NO_CONDITION_FIELD)
     requires(fid_ok(wf, fid))
@@ -317,10 +331,19 @@ def eof_setter_body(mode, crc, large, we, ws, src, seq, dst, cc, checksum, size,
     ensures("caller-config-untouched", same_state(conf, snap))
 
 
-@obligation(["C06", "C04", "C09", "C10"], "EofPdu.unpack/any", lia_branch=True, verifies=[P + "eof:EofPdu.unpack"])
-def eof_unpack_any(data: Bytes):
+def eof_unpack_any_body(data, part):
+    """part 1/2/4/8: octet strings whose header declares that sequence-number width; part 0: all other octet strings"""
+    if part == 0:
+        if len(data) >= 4:
+            w = bits(data[3], 2, 0) + 1
+            requires(not either(w == 1, w == 2, w == 4, w == 8))
+    else:
+        requires(len(data) >= 4)
+        requires(bits(data[3], 2, 0) + 1 == part)
     o = outcome(EofPdu.unpack, data)
     ensures("raises-only", o.ok or o.raised(ValueError, InvalidCrc, UnsupportedCfdpVersion, TlvTypeMissmatch))
+    if part == 0:
+        ensures("refused", not o.ok)
     if o.ok:
         g = o.value
         hl = raw_header_len(data)
@@ -339,10 +362,31 @@ def eof_unpack_any(data: Bytes):
             ensures("fault-location-from-declared-region-only", t.ok)
             if t.ok:
                 ensures("fault-location-value", same_state(g.fault_location, t.value))
-        o2 = outcome(EofPdu.unpack, data[0:n])
-        ensures("prefix-only", o2.ok)
-        if o2.ok:
-            ensures("prefix-only-same", same_state(g, o2.value))
+
+
+@obligation(["C06", "C04", "C09", "C10"], "EofPdu.unpack/any[seq-width-1]", lia_branch=True, verifies=[P + "eof:EofPdu.unpack"])
+def eof_unpack_any_1(data: Bytes):
+    eof_unpack_any_body(data, 1)
+
+
+@obligation(["C06", "C04", "C09", "C10"], "EofPdu.unpack/any[seq-width-2]", lia_branch=True, verifies=[P + "eof:EofPdu.unpack"])
+def eof_unpack_any_2(data: Bytes):
+    eof_unpack_any_body(data, 2)
+
+
+@obligation(["C06", "C04", "C09", "C10"], "EofPdu.unpack/any[seq-width-4]", lia_branch=True, verifies=[P + "eof:EofPdu.unpack"])
+def eof_unpack_any_4(data: Bytes):
+    eof_unpack_any_body(data, 4)
+
+
+@obligation(["C06", "C04", "C09", "C10"], "EofPdu.unpack/any[seq-width-8]", lia_branch=True, verifies=[P + "eof:EofPdu.unpack"])
+def eof_unpack_any_8(data: Bytes):
+    eof_unpack_any_body(data, 8)
+
+
+@obligation(["C06", "C09", "C10"], "EofPdu.unpack/any[other]", lia_branch=True, verifies=[P + "eof:EofPdu.unpack"])
+def eof_unpack_any_0(data: Bytes):
+    eof_unpack_any_body(data, 0)
 
 
 # ------------------------------------------------------------------------------------------------------------------
@@ -403,10 +447,6 @@ def ack_unpack_any(data: Bytes):
         ensures("fields", both(g.directive_type == DirectiveType.ACK_PDU, g.directive_code_of_acked_pdu == bits(data[hl + 1], 7, 4),
                                g.directive_subtype_code == bits(data[hl + 1], 3, 0), g.condition_code_of_acked_pdu == bits(data[hl + 2], 7, 4),
                                g.transaction_status == bits(data[hl + 2], 1, 0), g.packet_len == n))
-        o2 = outcome(AckPdu.unpack, data[0:n])
-        ensures("prefix-only", o2.ok)
-        if o2.ok:
-            ensures("prefix-only-same", same_state(g, o2.value))
 
 
 # ------------------------------------------------------------------------------------------------------------------
@@ -484,7 +524,3 @@ def keep_alive_unpack_any(data: Bytes):
         fl = fss_len(raw_large_flag(data))
         any_common(data, o, fl)
         ensures("fields", both(g.directive_type == DirectiveType.KEEP_ALIVE_PDU, g.progress == from_be(data[hl + 1:hl + 1 + fl]), g.packet_len == n))
-        o2 = outcome(KeepAlivePdu.unpack, data[0:n])
-        ensures("prefix-only", o2.ok)
-        if o2.ok:
-            ensures("prefix-only-same", same_state(g, o2.value))
